@@ -29,8 +29,8 @@ func (st *State) eval(fr *Frame, v ssa.Value) Value {
 		}
 		panic("freevar not found")
 	}
-	if r, ok := fr.locals[v]; ok {
-		return r
+	if i, ok := fr.info.idx[v]; ok {
+		return fr.locals[i]
 	}
 	panic(fmt.Sprintf("eval: no value for %s (%T) in %s", v.Name(), v, fr.fn))
 }
@@ -105,9 +105,10 @@ func (st *State) pushFrame(th *Thread, fn *ssa.Function, args []Value, env []Val
 	if len(fn.Blocks) == 0 {
 		st.abort(abUnsupported, "call of function without body: "+fn.String())
 	}
-	fr := &Frame{fn: fn, locals: make(map[ssa.Value]Value, 16), env: env, block: fn.Blocks[0], caller: th.fr, callIns: callIns}
-	for i, p := range fn.Params {
-		fr.locals[p] = args[i]
+	info := st.p.fnInfoFor(fn)
+	fr := &Frame{fn: fn, info: info, locals: make([]Value, info.n), env: env, block: fn.Blocks[0], caller: th.fr, callIns: callIns}
+	for i := range fn.Params {
+		fr.locals[i] = args[i]
 	}
 	th.fr = fr
 	st.fnCount[fn]++
@@ -161,7 +162,7 @@ func (st *State) deliver(th *Thread, callIns ssa.Instruction, res Value) {
 	}
 	if callIns != nil {
 		if v, ok := callIns.(ssa.Value); ok {
-			fr.locals[v] = res
+			fr.set(v, res)
 		}
 	}
 	if fr.onRet != nil {
@@ -173,6 +174,36 @@ func (st *State) deliver(th *Thread, callIns ssa.Instruction, res Value) {
 	if !fr.inDefers() {
 		fr.ip++
 	}
+}
+
+func (fr *Frame) set(v ssa.Value, val Value) {
+	fr.locals[fr.info.idx[v]] = val
+}
+
+type fnInfo struct {
+	idx map[ssa.Value]int
+	n   int
+}
+
+func (p *Program) fnInfoFor(fn *ssa.Function) *fnInfo {
+	if v, ok := p.fnInfos.Load(fn); ok {
+		return v.(*fnInfo)
+	}
+	fi := &fnInfo{idx: map[ssa.Value]int{}}
+	for _, pa := range fn.Params {
+		fi.idx[pa] = fi.n
+		fi.n++
+	}
+	for _, b := range fn.Blocks {
+		for _, ins := range b.Instrs {
+			if v, ok := ins.(ssa.Value); ok {
+				fi.idx[v] = fi.n
+				fi.n++
+			}
+		}
+	}
+	v, _ := p.fnInfos.LoadOrStore(fn, fi)
+	return v.(*fnInfo)
 }
 
 func (fr *Frame) inDefers() bool {
@@ -227,9 +258,9 @@ func (st *State) step(th *Thread) {
 		T := x.Type().(*types.Pointer).Elem()
 		o := st.newObj(sizeof(T), "alloc", T.String())
 		o.site = st.p.Fset.Position(x.Pos()).String()
-		fr.locals[x] = st.ptrTo(o, 0)
+		fr.set(x, st.ptrTo(o, 0))
 	case *ssa.BinOp:
-		fr.locals[x] = st.binop(x.Op, st.eval(fr, x.X), st.eval(fr, x.Y), x.X.Type(), x.Y.Type())
+		fr.set(x, st.binop(x.Op, st.eval(fr, x.X), st.eval(fr, x.Y), x.X.Type(), x.Y.Type()))
 	case *ssa.UnOp:
 		if x.Op == token.ARROW {
 			if !st.recv(th, fr, x) {
@@ -237,30 +268,30 @@ func (st *State) step(th *Thread) {
 			}
 			break
 		}
-		fr.locals[x] = st.unop(fr, x)
+		fr.set(x, st.unop(fr, x))
 	case *ssa.Call:
 		st.doCall(th, fr, x)
 		return
 	case *ssa.ChangeInterface:
-		fr.locals[x] = st.eval(fr, x.X)
+		fr.set(x, st.eval(fr, x.X))
 	case *ssa.ChangeType:
-		fr.locals[x] = st.eval(fr, x.X)
+		fr.set(x, st.eval(fr, x.X))
 	case *ssa.Convert:
-		fr.locals[x] = st.convert(st.eval(fr, x.X), x.X.Type(), x.Type())
+		fr.set(x, st.convert(st.eval(fr, x.X), x.X.Type(), x.Type()))
 	case *ssa.DebugRef:
 	case *ssa.Defer:
 		st.doDefer(fr, x)
 	case *ssa.Extract:
-		fr.locals[x] = st.eval(fr, x.Tuple).(Agg)[x.Index]
+		fr.set(x, st.eval(fr, x.Tuple).(Agg)[x.Index])
 	case *ssa.Field:
-		fr.locals[x] = st.eval(fr, x.X).(Agg)[x.Field]
+		fr.set(x, st.eval(fr, x.X).(Agg)[x.Field])
 	case *ssa.FieldAddr:
 		p := st.eval(fr, x.X).(*Term)
 		ST := x.X.Type().Underlying().(*types.Pointer).Elem().Underlying().(*types.Struct)
 		if p.IsConst() && p.C == 0 {
 			st.fail("nil pointer dereference (field address)")
 		}
-		fr.locals[x] = st.c.Add(p, st.c.Const(64, uint64(st.offsets(ST)[x.Field])))
+		fr.set(x, st.c.Add(p, st.c.Const(64, uint64(st.offsets(ST)[x.Field]))))
 	case *ssa.Go:
 		st.doGo(th, fr, x)
 	case *ssa.If:
@@ -272,38 +303,38 @@ func (st *State) step(th *Thread) {
 		}
 		return
 	case *ssa.Index:
-		fr.locals[x] = st.indexValue(fr, x)
+		fr.set(x, st.indexValue(fr, x))
 	case *ssa.IndexAddr:
-		fr.locals[x] = st.indexAddr(fr, x)
+		fr.set(x, st.indexAddr(fr, x))
 	case *ssa.Jump:
 		st.jump(fr, fr.block.Succs[0])
 		return
 	case *ssa.Lookup:
-		fr.locals[x] = st.lookup(fr, x)
+		fr.set(x, st.lookup(fr, x))
 	case *ssa.MakeChan:
 		sz := st.eval(fr, x.Size).(*Term)
 		ch := &ChanObj{id: len(st.handles), cap: int(st.concretize(sz, "chan size")), ET: x.Type().Underlying().(*types.Chan).Elem()}
 		st.handleFor(ch)
-		fr.locals[x] = ch
+		fr.set(x, ch)
 	case *ssa.MakeClosure:
 		env := make([]Value, len(x.Bindings))
 		for i, b := range x.Bindings {
 			env[i] = st.eval(fr, b)
 		}
-		fr.locals[x] = &Closure{Fn: x.Fn.(*ssa.Function), Env: env}
+		fr.set(x, &Closure{Fn: x.Fn.(*ssa.Function), Env: env})
 	case *ssa.MakeInterface:
-		fr.locals[x] = IfaceV{T: x.X.Type(), V: st.eval(fr, x.X)}
+		fr.set(x, IfaceV{T: x.X.Type(), V: st.eval(fr, x.X)})
 	case *ssa.MakeMap:
 		mt := x.Type().Underlying().(*types.Map)
 		m := &MapObj{id: len(st.handles), KT: mt.Key(), VT: mt.Elem()}
 		st.handleFor(m)
-		fr.locals[x] = m
+		fr.set(x, m)
 	case *ssa.MakeSlice:
-		fr.locals[x] = st.makeSlice(fr, x)
+		fr.set(x, st.makeSlice(fr, x))
 	case *ssa.MapUpdate:
 		st.mapUpdate(st.eval(fr, x.Map).(*MapObj), st.eval(fr, x.Key), st.eval(fr, x.Value))
 	case *ssa.Next:
-		fr.locals[x] = st.rangeNext(fr, x)
+		fr.set(x, st.rangeNext(fr, x))
 	case *ssa.Panic:
 		v := st.eval(fr, x.X)
 		st.fail("panic: " + st.describe(v))
@@ -311,7 +342,7 @@ func (st *State) step(th *Thread) {
 		// handled in jump
 		panic("phi reached in step")
 	case *ssa.Range:
-		fr.locals[x] = st.rangeInit(fr, x)
+		fr.set(x, st.rangeInit(fr, x))
 	case *ssa.Return:
 		var res Value
 		switch len(x.Results) {
@@ -347,16 +378,16 @@ func (st *State) step(th *Thread) {
 			return
 		}
 	case *ssa.Slice:
-		fr.locals[x] = st.sliceOp(fr, x)
+		fr.set(x, st.sliceOp(fr, x))
 	case *ssa.SliceToArrayPointer:
 		s := st.eval(fr, x.X).(SliceV)
-		fr.locals[x] = s.Ptr
+		fr.set(x, s.Ptr)
 	case *ssa.Store:
 		addr := st.eval(fr, x.Addr).(*Term)
 		T := x.Addr.Type().Underlying().(*types.Pointer).Elem()
 		st.store(addr, T, st.eval(fr, x.Val))
 	case *ssa.TypeAssert:
-		fr.locals[x] = st.typeAssert(fr, x)
+		fr.set(x, st.typeAssert(fr, x))
 	default:
 		st.abort(abUnsupported, fmt.Sprintf("instruction %T", ins))
 	}
@@ -390,7 +421,7 @@ func (st *State) jump(fr *Frame, to *ssa.BasicBlock) {
 		n++
 	}
 	for i := 0; i < n; i++ {
-		fr.locals[to.Instrs[i].(*ssa.Phi)] = vals[i]
+		fr.set(to.Instrs[i].(*ssa.Phi), vals[i])
 	}
 	fr.prev = from
 	fr.block = to
@@ -812,6 +843,7 @@ func (st *State) convert(v Value, from, to types.Type) Value {
 			}
 			n := int(st.concretize(x.Len, "string length"))
 			o := st.newObj(n, "alloc", "[]byte(string)")
+			o.ensure()
 			if n > 0 {
 				src := st.byteTerms(x.Ptr, x.Len, "string conversion")
 				for i, b := range src {
@@ -829,6 +861,7 @@ func (st *State) convert(v Value, from, to types.Type) Value {
 			if tb, ok := tu.(*types.Basic); ok && tb.Info()&types.IsString != 0 {
 				n := int(st.concretize(x.Len, "slice length"))
 				o := st.newObj(n, "alloc", "string([]byte)")
+				o.ensure()
 				if n > 0 {
 					src := st.byteTerms(x.Ptr, x.Len, "string conversion")
 					for i, b := range src {
